@@ -12199,6 +12199,11 @@ tsk_table_collection_link_ancestors(tsk_table_collection_t *self, tsk_id_t *samp
 
     tsk_memset(&ancestor_mapper, 0, sizeof(ancestor_mapper_t));
 
+    /* The algorithm indexes per-node arrays by the ids stored in the edge table */
+    ret = (int) tsk_table_collection_check_integrity(self, 0);
+    if (ret != 0) {
+        goto out;
+    }
     if (self->edges.metadata_length > 0) {
         ret = tsk_trace_error(TSK_ERR_CANT_PROCESS_EDGES_WITH_METADATA);
         goto out;
@@ -12234,6 +12239,11 @@ tsk_table_collection_ibd_within(const tsk_table_collection_t *self,
     if (ret != 0) {
         goto out;
     }
+    /* The algorithm indexes per-node arrays by the ids stored in the edge table */
+    ret = (int) tsk_table_collection_check_integrity(self, 0);
+    if (ret != 0) {
+        goto out;
+    }
     ret = tsk_ibd_finder_init_within(&ibd_finder, samples, num_samples);
     if (ret != 0) {
         goto out;
@@ -12264,6 +12274,11 @@ tsk_table_collection_ibd_between(const tsk_table_collection_t *self,
         goto out;
     }
     ret = tsk_ibd_finder_init(&ibd_finder, self, result, min_span, max_time);
+    if (ret != 0) {
+        goto out;
+    }
+    /* The algorithm indexes per-node arrays by the ids stored in the edge table */
+    ret = (int) tsk_table_collection_check_integrity(self, 0);
     if (ret != 0) {
         goto out;
     }
@@ -12681,6 +12696,11 @@ tsk_table_collection_delete_older(
     memset(&mutations, 0, sizeof(mutations));
     memset(&migrations, 0, sizeof(migrations));
 
+    /* Node times and the mutation map are indexed by ids stored in the tables */
+    ret = (int) tsk_table_collection_check_integrity(self, 0);
+    if (ret != 0) {
+        goto out;
+    }
     ret = tsk_edge_table_copy(&self->edges, &edges, 0);
     if (ret != 0) {
         goto out;
